@@ -88,7 +88,7 @@ def if_branches(t, depth=0):
     return out
 
 
-def seq_classes(formulas):
+def seq_classes(formulas, cong_tables=()):
     """union-find of sequence terms asserted equal at the top level of hypotheses"""
     parent = {}
 
@@ -112,6 +112,28 @@ def seq_classes(formulas):
                 parent[a] = b
     for f in formulas:
         top(f)
+    # light congruence closure for fold / map applications: same symbol, arguments pairwise identical or in the same
+    # class -> same class (their equality follows by congruence; only the candidate index terms are affected)
+    if cong_tables:
+        apps = []
+        for tbl in cong_tables:
+            apps.extend(named_apps(tbl, formulas))
+        by_decl = {}
+        for a in apps:
+            if z3.is_seq(a):
+                by_decl.setdefault(a.decl().name(), []).append(a)
+        for _ in range(2):
+            for name, lst in by_decl.items():
+                for i in range(len(lst)):
+                    for j in range(i + 1, len(lst)):
+                        a, b = lst[i], lst[j]
+                        if find(a.get_id()) == find(b.get_id()):
+                            continue
+                        if all(a.arg(k).get_id() == b.arg(k).get_id() or
+                               find(a.arg(k).get_id()) == find(b.arg(k).get_id()) for k in range(a.num_args())):
+                            members[a.get_id()] = a
+                            members[b.get_id()] = b
+                            parent[find(a.get_id())] = find(b.get_id())
     find.members = members
     return find
 
@@ -242,7 +264,7 @@ def prepare_query(reg: Registry, hyps, goal, extra_terms=(), level=0):
         base = ground0 + derived + ([g] if not qgoal else [])
         idx = index_terms(base + ([g] if qgoal else [])) + [t for t in sk if t.sort() == INT] + list(extra_terms) + [ival(0)]
         usage = nth_usage(base)
-        find = seq_classes(ground0 + derived)
+        find = seq_classes(ground0 + derived + [g], (reg.fold_defs, reg.map_defs))
         by_class = {}
         for sid, terms in usage.items():
             by_class.setdefault(find(sid), []).extend(terms)
@@ -350,11 +372,22 @@ def prepare_query(reg: Registry, hyps, goal, extra_terms=(), level=0):
                 if rnd >= FOLD_UNFOLD_ROUNDS:
                     continue
                 done_fold.add(a.get_id())
+                # base case, for every application: k <= 0  ==>  F(xs, k, init, ..) == init
+                if a.num_args() >= 3 and a.arg(2).sort() == a.sort():
+                    changed |= add(z3.Implies(a.arg(1) <= 0, a == a.arg(2)))
                 if not worth_unfolding(a, fold_anchors):
                     continue
                 # the application itself is kept syntactically as it occurs in the query (term identity matters for
                 # the instantiation heuristics); only the right-hand side is simplified
-                changed |= add(a == renth(z3.simplify(reg.fold_defs[a.decl().name()].rhs(a))))
+                rhs = reg.fold_defs[a.decl().name()].rhs(a)
+                changed |= add(a == renth(z3.simplify(rhs)))
+                srt = a.sort()
+                if srt.kind() == z3.Z3_DATATYPE_SORT and srt.num_constructors() == 1:
+                    # tuple-valued fold state: component-wise equations (sequence components take part in the
+                    # sequence lemmas / instantiation heuristics only as sequence-sorted equalities)
+                    for ai in range(srt.constructor(0).arity()):
+                        acc = srt.accessor(0, ai)
+                        changed |= add(acc(a) == renth(z3.simplify(project(srt, ai, renth(z3.simplify(rhs))))))
         if not changed:
             break
     if qgoal:
@@ -415,6 +448,16 @@ def seq_lemmas(formulas, done=None):
     for f in formulas:
         walk(f)
     return out
+
+
+def project(srt, ai, t):
+    """accessor ai of the single-constructor datatype srt applied to t, pushed through if-then-else and constructors"""
+    if z3.is_app(t):
+        if t.decl().kind() == z3.Z3_OP_ITE:
+            return z3.If(t.arg(0), project(srt, ai, t.arg(1)), project(srt, ai, t.arg(2)))
+        if t.decl().name() == srt.constructor(0).name() and t.num_args() == srt.constructor(0).arity():
+            return t.arg(ai)
+    return srt.accessor(0, ai)(t)
 
 
 def top_level_seq_equalities(formulas):
